@@ -62,7 +62,7 @@ TEMPLATES = [
     ("unpack2", "p, q := {a}; [p, q]", 1), ("unpack_splat", "p, ...q := {a}; [p, q]", 1),
     ("unpack_splat_mid", "p, ...q, s := {a}; [p, q, s]", 1), ("unpack_splat3", "p, q, ...s, t := {a}; [p, q, s, t]", 1),
     ("unpack_splat_first", "...p, q := {a}; [p, q]", 1), ("unpack_nested", "[p, [q, s]] := {a}; [p, q, s]", 1),
-    ("unpack_default", "f := \\p, q: 5 -> [p, q]; f(...{a})", 1),
+    ("unpack_default", "f := \\p, q = 5 -> [p, q]; f(...{a})", 1),
     ("lambda_splat", "f := \\p, ...q -> [p, q]; f(...{a})", 1), ("lambda_splat0", "f := \\...q -> q; f(...{a})", 1),
     ("lambda_splat_mid", "f := \\p, ...q, s -> [p, q, s]; f(...{a})", 1),
     ("update", "x := {a}; x{{{b} = {c}}}", 3),
